@@ -13,8 +13,8 @@ def T.WF (t : T) : Prop := t.parents.length = t.texts.length ∧ t.keep.length =
 
 /-! ## passes 2 and 3 touch neither the texts nor the sizes -/
 
-theorem reparent_texts (t : T) (p c : Nat) : (reparent t p c).texts = t.texts := rfl
-theorem setKeep_texts (t : T) (i : Nat) : (setKeep t i).texts = t.texts := rfl
+theorem reparent_texts_ll (t : T) (p c : Nat) : (reparent t p c).texts = t.texts := rfl
+theorem setKeep_texts_ll (t : T) (i : Nat) : (setKeep t i).texts = t.texts := rfl
 
 theorem reparent_wf (t : T) (p c : Nat) (h : t.WF) : (reparent t p c).WF := by
   simpa [T.WF, reparent] using h
@@ -146,23 +146,23 @@ theorem markMacros_wf (cfg : Cfg) (t : T) (h : t.WF) : (markMacros cfg t).WF := 
 
 /-! ## pass 1 yields one parent per line -/
 
-theorem linkLoop_length (ls : List Info) : ∀ (st : St) (i : Nat), (linkLoop st i ls).length = ls.length := by
+theorem linkLoop_length_ll (ls : List Info) : ∀ (st : St) (i : Nat), (linkLoop st i ls).length = ls.length := by
   induction ls with
   | nil => intros; rfl
   | cons l rest ih => intro st i; simp [linkLoop, ih]
 
-theorem linkByIndent_length (cfg : Cfg) (ls : List Str) : (linkByIndent cfg ls).length = ls.length := by
-  simp [linkByIndent, linkLoop_length]
+theorem linkByIndent_length_ll (cfg : Cfg) (ls : List Str) : (linkByIndent cfg ls).length = ls.length := by
+  simp [linkByIndent, linkLoop_length_ll]
 
 /-! ## passes 1–3 -/
 
-theorem link_texts (cfg : Cfg) (ls : List Str) : (link cfg ls).texts = ls := by
+theorem link_texts_ll (cfg : Cfg) (ls : List Str) : (link cfg ls).texts = ls := by
   unfold link; rw [markMacros_texts, markBanners_texts]
 
 theorem link_wf (cfg : Cfg) (ls : List Str) : (link cfg ls).WF := by
   unfold link
   apply markMacros_wf; apply markBanners_wf
-  simp [T.WF, linkByIndent_length]
+  simp [T.WF, linkByIndent_length_ll]
 
 /-- without a banner start the banner pass changes nothing -/
 theorem markBannersFrom_id (ls : List Str) (h : ∀ x ∈ ls, isBannerStart x = false) :
@@ -254,7 +254,7 @@ theorem bootstrapFuel_is_link (cfg : Cfg) : ∀ (fuel : Nat) (ls : List Str),
     bootstrapFuel cfg fuel ls = link cfg (bootstrapFuel cfg fuel ls).texts := by
   intro fuel
   induction fuel with
-  | zero => intro ls; simp [bootstrapFuel, link_texts]
+  | zero => intro ls; simp [bootstrapFuel, link_texts_ll]
   | succ fuel ih =>
     intro ls
     unfold bootstrapFuel
@@ -262,8 +262,8 @@ theorem bootstrapFuel_is_link (cfg : Cfg) : ∀ (fuel : Nat) (ls : List Str),
     split
     · split
       · exact ih _
-      · simp [link_texts]
-    · simp [link_texts]
+      · simp [link_texts_ll]
+    · simp [link_texts_ll]
 
 theorem bootstrapFuel_wf (cfg : Cfg) (fuel : Nat) (ls : List Str) : (bootstrapFuel cfg fuel ls).WF := by
   rw [bootstrapFuel_is_link]; exact link_wf _ _
@@ -272,7 +272,7 @@ theorem bootstrapFuel_sublist (cfg : Cfg) : ∀ (fuel : Nat) (ls : List Str),
     (bootstrapFuel cfg fuel ls).texts.Sublist ls := by
   intro fuel
   induction fuel with
-  | zero => intro ls; simp [bootstrapFuel, link_texts]
+  | zero => intro ls; simp [bootstrapFuel, link_texts_ll]
   | succ fuel ih =>
     intro ls
     unfold bootstrapFuel
@@ -281,24 +281,24 @@ theorem bootstrapFuel_sublist (cfg : Cfg) : ∀ (fuel : Nat) (ls : List Str),
     · split
       · refine (ih _).trans ?_
         have := keptTexts_sublist (link cfg ls)
-        rwa [link_texts] at this
-      · simp [link_texts]
-    · simp [link_texts]
+        rwa [link_texts_ll] at this
+      · simp [link_texts_ll]
+    · simp [link_texts_ll]
 
 theorem bootstrapFuel_nonBlank (cfg : Cfg) : ∀ (fuel : Nat) (ls : List Str),
     (bootstrapFuel cfg fuel ls).texts.filter nonBlank = ls.filter nonBlank := by
   intro fuel
   induction fuel with
-  | zero => intro ls; simp [bootstrapFuel, link_texts]
+  | zero => intro ls; simp [bootstrapFuel, link_texts_ll]
   | succ fuel ih =>
     intro ls
     unfold bootstrapFuel
     simp only
     split
     · split
-      · rw [ih, keptTexts_nonBlank _ (link_wf _ _), link_texts]
-      · simp [link_texts]
-    · simp [link_texts]
+      · rw [ih, keptTexts_nonBlank _ (link_wf _ _), link_texts_ll]
+      · simp [link_texts_ll]
+    · simp [link_texts_ll]
 
 /-- `ls.length` rounds are enough: every extra round strictly shortens the list, so the
 filter drops nothing from the result -/
@@ -312,7 +312,7 @@ theorem bootstrapFuel_fixed (cfg : Cfg) (hi : cfg.ignoreBlank = true) : ∀ (fue
     have : ls = [] := List.eq_nil_of_length_eq_zero (by omega)
     subst this
     have := (keptTexts_sublist (link cfg [])).length_le
-    simp [bootstrapFuel, link_texts] at this ⊢
+    simp [bootstrapFuel, link_texts_ll] at this ⊢
     exact this
   | succ fuel ih =>
     intro ls h
@@ -322,17 +322,17 @@ theorem bootstrapFuel_fixed (cfg : Cfg) (hi : cfg.ignoreBlank = true) : ∀ (fue
     · rename_i hne
       apply ih
       have := (keptTexts_sublist (link cfg ls)).length_le
-      rw [link_texts] at this
+      rw [link_texts_ll] at this
       simp at hne
       omega
     · rename_i heq
       simp at heq
-      simp [link_texts, heq]
+      simp [link_texts_ll, heq]
 
 theorem keptTexts_fixed_of_length (cfg : Cfg) (ls : List Str)
     (h : (keptTexts (link cfg ls)).length = ls.length) : keptTexts (link cfg ls) = ls := by
   have hs := keptTexts_sublist (link cfg ls)
-  rw [link_texts] at hs
+  rw [link_texts_ll] at hs
   exact hs.eq_of_length h
 
 theorem bootstrap_fixed (cfg : Cfg) (hi : cfg.ignoreBlank = true) (ls : List Str) :
@@ -345,7 +345,7 @@ theorem parse_eq_bootstrap (cfg : Cfg) (ls : List Str) : parse cfg ls = bootstra
   cases hi : cfg.ignoreBlank with
   | false =>
     unfold bootstrap
-    rw [bootstrapFuel_noIgnore cfg hi, bootstrapFuel_noIgnore cfg hi, link_texts]
+    rw [bootstrapFuel_noIgnore cfg hi, bootstrapFuel_noIgnore cfg hi, link_texts_ll]
   | true =>
     have hfix := bootstrap_fixed cfg hi ls
     have hlink : bootstrap cfg ls = link cfg (bootstrap cfg ls).texts := bootstrapFuel_is_link _ _ _
